@@ -1884,6 +1884,168 @@ func genStep(r *lib.RNG, c *lib.Ctx, cr *caseRun, at *atoms, toSend int) string 
 	}
 }
 
+// ------------------------------------------------------------------ the size family: long busy periods
+
+// sizedGraph: a small fixed workflow per node kind – a chain of one-to-one nodes, a fork, a diamond with a join.
+func sizedGraph(r *lib.RNG, c *lib.Ctx) []string {
+	switch r.Intn(3) {
+	case 0:
+		k := r.Range(1, 3)
+		c.Hit(fmt.Sprintf("sized-chain-%d", k))
+		var ls []string
+		for i := 0; i < k; i++ {
+			ls = append(ls, "node o")
+		}
+		for i := 0; i+1 < k; i++ {
+			ls = append(ls, fmt.Sprintf("link %d 1 n %d 0", i, i+1))
+		}
+		ls = append(ls, fmt.Sprintf("link %d 1 s 0", k-1))
+		if r.Chance(1, 3) {
+			ls = append(ls, "link 0 0 s 1")
+		}
+		return append(ls, "src 0 0")
+	case 1:
+		c.Hit("sized-fork")
+		if r.Chance(1, 2) {
+			return []string{"node m 2", "link 0 1 s 0", "link 0 2 s 1", "src 0 0"}
+		}
+		return []string{"node o", "node m 2", "link 0 1 n 1 0", "link 1 1 s 0", "link 1 2 s 1", "src 0 0"}
+	default:
+		c.Hit("sized-join")
+		return []string{"node m 2", "node o", "node o", "node j 2", "link 0 1 n 1 0", "link 0 2 n 2 0",
+			"link 1 1 n 3 0", "link 2 1 n 3 1", "link 3 1 s 0", "src 0 0"}
+	}
+}
+
+// sizedProgress: one step that is not a `send` – an action returns or a sink answers; "" when nothing is due.
+func sizedProgress(r *lib.RNG, cr *caseRun, at *atoms) string {
+	sm := cr.sm
+	var opts []string
+	for n, nd := range sm.nodes {
+		if nd.cur != nil {
+			opts = append(opts, fmt.Sprintf("rel %d", n))
+		}
+	}
+	for k, q := range sm.sinkQ {
+		if len(q) > 0 {
+			opts = append(opts, fmt.Sprintf("ans %d", k))
+		}
+	}
+	if len(opts) == 0 {
+		return ""
+	}
+	o := lib.Pick(r, opts)
+	if strings.HasPrefix(o, "ans") {
+		if r.Chance(1, 3) {
+			return o + " same"
+		}
+		return o + " " + at.fresh()
+	}
+	var n int
+	fmt.Sscanf(o, "rel %d", &n)
+	switch cr.g.nodes[n].kind {
+	case 'o':
+		switch x := r.Intn(10); {
+		case x < 5:
+			return o + " i" // pass-through
+		case x < 9:
+			return o + " o " + at.fresh()
+		default:
+			return o + " e " + at.err()
+		}
+	case 'm':
+		switch x := r.Intn(10); {
+		case x < 5:
+			return o + " m " + at.fresh() + " " + at.fresh()
+		case x < 8:
+			return o + " s 2"
+		default:
+			return o + " m " + at.fresh() + " ="
+		}
+	default:
+		if r.Chance(1, 6) {
+			return o + " d"
+		}
+		return o + " o " + at.fresh()
+	}
+}
+
+// runSized: ONE process, one small workflow, a LONG busy period: `total` requests with `window` of them in flight
+// at all times (a new request is written before the window's oldest is answered, so the first node's in-port never
+// becomes idle), or a burst of n requests of which n-1 are answered before n more are written.
+func runSized(c *lib.Ctx, r *lib.RNG, sc *lib.Script) *caseRun {
+	cr := newCase(c, sc)
+	defer cr.finish()
+	for _, l := range sizedGraph(r, c) {
+		if !cr.exec(l) {
+			cr.fail("generator", "generator produced an unusable line: "+l)
+			return cr
+		}
+	}
+	at := &atoms{}
+	do := func(l string) bool {
+		if l == "" {
+			return false
+		}
+		if !cr.exec(l) {
+			cr.fail("generator", "generator produced an unusable line: "+l)
+			return false
+		}
+		return !cr.aborted
+	}
+	send := func() bool { return do("send " + at.fresh()) }
+	inflight := func() int { return cr.sent - cr.gotResp }
+	// the long ones are rare: the model driver's time per case grows faster than linearly with its length
+	big := r.Chance(1, 6)
+	if r.Chance(1, 2) {
+		// a sliding window
+		window := []int{1, 2, 2, 5, 17, 20}[r.Intn(6)]
+		total := r.Range(18, 40)
+		if big {
+			total = r.Range(41, 120)
+		}
+		c.Hit(fmt.Sprintf("sized-window-%d", window))
+		if !send() {
+			return cr
+		}
+		for i := 0; i < 40*total && !cr.aborted; i++ {
+			if cr.sent < total && inflight() < window {
+				if !send() {
+					break
+				}
+				continue
+			}
+			if !do(sizedProgress(r, cr, at)) {
+				break
+			}
+		}
+	} else {
+		ns := []int{16, 17, 18, 24}
+		if big {
+			ns = []int{33, 65}
+		}
+		n := ns[r.Intn(len(ns))]
+		c.Hit(fmt.Sprintf("sized-burst-%d", n))
+		ok := true
+		for i := 0; i < n && ok; i++ {
+			ok = send()
+		}
+		for i := 0; ok && i < 40*n && cr.gotResp < n-1; i++ {
+			ok = do(sizedProgress(r, cr, at))
+		}
+		for i := 0; i < n && ok; i++ {
+			ok = send()
+		}
+		for i := 0; ok && i < 80*n; i++ {
+			ok = do(sizedProgress(r, cr, at))
+		}
+	}
+	if !cr.aborted {
+		cr.exec("end")
+	}
+	return cr
+}
+
 func runGenerated(c *lib.Ctx, r *lib.RNG, sc *lib.Script, maxNodes int) *caseRun {
 	cr := newCase(c, sc)
 	defer cr.finish()
@@ -1964,7 +2126,7 @@ func account(c *lib.Ctx, cr *caseRun) {
 }
 
 func Run(c *lib.Ctx) {
-	c.Rule = "a case = a random acyclic workflow (1–6 real nodes: one-to-one, one-to-many, many-to-one; chains, fan-out, diamonds, fan-in to one input, unconnected and error outputs) + 1–4 pipelined requests (the source also re-sends the packet object of its previous request) + a random schedule of action releases (transform/identity/split/drop/fail, a fork handing its in packet to all outputs leading to one input) and sink answers (payload/same/None/error/nil), executed on the real nodes and on the Lean model, compared step by step (actions entered, sink arrivals, source responses); every sixth case runs 2–3 PROCESSES through the same node objects – one after the other (the earlier one has exited) or at the same time with interleaved steps –, each with its own requests, request-tree oracle and run of the model (`newproc`, `newproc+`, `proc k` lines; a later sequential process often repeats the first one's schedule so that a many-to-one node completes its groups through the same in-ports again); non-trivial = at least 2 requests in flight at once and ≥ 4 schedule steps, distinct by the full line list"
+	c.Rule = "a case = a random acyclic workflow (1–6 real nodes: one-to-one, one-to-many, many-to-one; chains, fan-out, diamonds, fan-in to one input, unconnected and error outputs) + 1–4 pipelined requests (the source also re-sends the packet object of its previous request) + a random schedule of action releases (transform/identity/split/drop/fail, a fork handing its in packet to all outputs leading to one input) and sink answers (payload/same/None/error/nil), executed on the real nodes and on the Lean model, compared step by step (actions entered, sink arrivals, source responses); every tenth case is of the SIZE family – one process, a small workflow per node kind (chain of 1–3 one-to-one nodes, fork, diamond with a join), a LONG busy period: 18–40 (one case in six: 41–120) requests with 1, 2, 5, 17 or 20 of them in flight at all times, or a burst of n ∈ {16,17,18,24; 33,65} requests of which n-1 are answered before n more are written; every sixth case runs 2–3 PROCESSES through the same node objects – one after the other (the earlier one has exited) or at the same time with interleaved steps –, each with its own requests, request-tree oracle and run of the model (`newproc`, `newproc+`, `proc k` lines; a later sequential process often repeats the first one's schedule so that a many-to-one node completes its groups through the same in-ports again); non-trivial = at least 2 requests in flight at once and ≥ 4 schedule steps, distinct by the full line list"
 	c.Assumptions = []string{
 		"Writer/Reader honour the C01 contract on the paths used here (never closed, linked before the first write); the model of the edges in Uniflow.Flow is the fully-linked fragment only",
 		"each Tracer method is atomic (runs under Tracer.mu); the schedule interleaves whole forward iterations' Link/Write calls with backward Receive calls only at the points the harness controls (action blocked / sink holding); finer interleavings are covered by the theorem, not by the runs",
@@ -2001,6 +2163,17 @@ func Run(c *lib.Ctx) {
 	start := time.Now()
 	budget := time.Duration(c.Scale(25, 420)) * time.Second
 	for i := 0; i < n && time.Since(start) < budget; i++ {
+		if i%10 == 9 {
+			// the size family: a long busy period in one process
+			cr := runSized(c, r.Fork(), sc)
+			account(c, cr)
+			c.Hit("sized-case")
+			fails = append(fails, cr.fails...)
+			if len(fails) > 20 {
+				break
+			}
+			continue
+		}
 		if i%6 == 5 {
 			// several processes through the same node objects
 			m := runMulti(c, r.Fork(), sc, maxNodes)
